@@ -53,6 +53,15 @@ def regenerate_guards(pid):
     old = target.read_text() if target.exists() else ""
     if text != old: target.write_text(text)
     info["changed_since_last_run"] = text != old
+    if pid == "C08":
+        # the NumPy code of BiasModel.learn, statement by statement (translate/py2lean_np.py)
+        import py2lean_np
+        nt = LEAN_DIR / "LK" / "Generated" / "NpC08.lean"
+        try: ntext = py2lean_np.translate_learn(os.path.dirname(lenskit.__file__))
+        except py2lean_np.Unsupported as e: return "untranslatable", f"BiasModel.learn: {e}", info
+        nold = nt.read_text() if nt.exists() else ""
+        if ntext != nold: nt.write_text(ntext)
+        info["numpy_code"] = {"module": "LK.Gen.NpC08", "obligations": "LK/Proofs/NpC08.lean", "function": "basic/bias.py:BiasModel.learn", "changed_since_last_run": ntext != nold}
     if pid == "C03":
         # the wiring of the standard pipelines, as lenskit's own builders construct it now (translate/wiring_gen.py)
         import wiring_gen
@@ -124,7 +133,7 @@ def main():
         if status in ("untranslatable", "obligation-broken"):
             sys.exit(search_chunking(a.pid, f"{status}: {msg}"))
         if status == "build-error":
-            if ginfo is not None and (f"Guards{a.pid}" in msg or f"Wiring{a.pid}" in msg or f"Scatter{a.pid}" in msg):
+            if ginfo is not None and any(f"{k}{a.pid}" in msg for k in ("Guards", "Wiring", "Scatter", "Np")):
                 sys.exit(obligation_broken(a.pid, "obligation-broken: " + msg.replace("\n", " | ")[:900], mod, a.tier, seed, a.replay, ginfo))
             print(f"machinery error: lake build failed\n{msg}", file=sys.stderr); sys.exit(2)
     else:
@@ -132,7 +141,7 @@ def main():
         r = subprocess.run(["lake", "build", f"LK.Props.{a.pid}", "lkdriver"], cwd=LEAN_DIR, capture_output=True, text=True, timeout=1800)
         if r.returncode != 0:
             bad = [l for l in (r.stdout + r.stderr).splitlines() if "error" in l][:8]
-            if ginfo is not None and any((f"Guards{a.pid}" in l or f"Wiring{a.pid}" in l or f"Scatter{a.pid}" in l) for l in bad):
+            if ginfo is not None and any(any(f"{k}{a.pid}" in l for k in ("Guards", "Wiring", "Scatter", "Np")) for l in bad):
                 sys.exit(obligation_broken(a.pid, "obligation-broken: " + " | ".join(bad)[:900], mod, a.tier, seed, a.replay, ginfo))
             print("machinery error: lake build failed\n" + "\n".join(bad[:6]), file=sys.stderr); sys.exit(2)
     try:
